@@ -70,6 +70,12 @@ func c16Gen(rng *verifsim.RNG, idx int, tier string) *Plan {
 		// Component altitude: the plugins' TimeNow seam driven by a jumping clock
 		// (non-decreasing, repeats, readings before the epoch).
 		p.Scenario, p.Class = "clock", "clock-seam"
+		if rng.Bool(0.4) {
+			// every call of the clock gets the next reading: the clock may advance
+			// between two readings taken while one RA is being built
+			p.Class = "clock-seam-per-call"
+			p.Opt = map[string]int64{"per_call": 1}
+		}
 		t := -int64(rng.Dur(0, 10*time.Second))
 		if rng.Bool(0.5) {
 			t = 0
@@ -141,6 +147,57 @@ func init() {
 		info.cfgs[0] = cfg
 		ifi := cfg.Interfaces[0]
 		var now time.Time
+		perCall := p.Opt["per_call"] == 1
+		idx, first, last := 0, int64(0), int64(0)
+		tick := func() time.Time {
+			// per-call mode: consume the next reading (the last one repeats)
+			if perCall {
+				off := p.Clock[len(p.Clock)-1]
+				if idx < len(p.Clock) {
+					off = p.Clock[idx]
+				}
+				idx++
+				if first == -1<<62 {
+					first = off
+				}
+				last = off
+				return epoch.Add(time.Duration(off))
+			}
+			return now
+		}
+		if perCall {
+			for _, pl := range ifi.Plugins {
+				switch pl := pl.(type) {
+				case *plugin.Prefix:
+					pl.TimeNow = tick
+				case *plugin.Route:
+					pl.TimeNow = tick
+				case *plugin.LLA:
+					pl.Addr = parseMAC(p.Nodes[0].Ifaces[0].MAC)
+				}
+			}
+			for idx < len(p.Clock) {
+				first, last = -1<<62, 0
+				before := idx
+				e := verifsim.Event{K: "clock.build", If: ifi.Name}
+				ra, _, err := ifi.RouterAdvertisement(true)
+				if err != nil {
+					e.Err = err.Error()
+				} else if b, err := ndp.MarshalMessage(ra); err != nil {
+					e.Err = "marshal: " + err.Error()
+				} else {
+					e.B = b
+				}
+				if idx == before {
+					// the build did not read the clock at all: nothing deprecated
+					idx++
+					first, last = p.Clock[before], p.Clock[before]
+				}
+				e.V, e.Ref = first, int(last-first)
+				w.log.Add(e)
+			}
+			return
+		}
 		for _, pl := range ifi.Plugins {
 			switch pl := pl.(type) {
 			case *plugin.Prefix:
@@ -237,7 +294,10 @@ func c16Oracle(info *runInfo, res *verifsim.Result) {
 			}
 			ra := parseRA(e.B)
 			t := info.epochs[0] + e.V
-			in := modelIn{spec: spec, fwd: true, mac: info.plan.Nodes[0].Ifaces[0].MAC, nLoop: 1, epoch: info.epochs[0], t1: t, t2: t}
+			in := modelIn{spec: spec, fwd: true, mac: info.plan.Nodes[0].Ifaces[0].MAC, nLoop: 1, epoch: info.epochs[0], t1: t, t2: t + int64(e.Ref)}
+			if e.Ref > 0 {
+				res.Probe("clock_advanced_within_one_build")
+			}
 			c16Check(res, info, ra, in, fmt.Sprintf("clock reading epoch%+v", time.Duration(e.V)), last, lastT)
 			if e.V < 0 {
 				res.Probe("reading_before_epoch")
